@@ -1,18 +1,34 @@
 """C03 -- tag search returns exactly the matching features in ID order  (MutableWorld family; see tools/mworld.py)"""
 import mworld
+import sworld
 
 META = {
     "engine": "mworld",
     "level": "model_checking",
     "text": 'World!Den is the denotation of all/tagged/keyed/typed/and/or over current tags; after every transition of scenarios 1-2 (edit histories) FindFeatures for a battery of 12 query trees must return exactly Sorted(Den) on BasicMutableWorld and three overlay constructions.',
-    "note": "Small scope (<= 13 features on a convex polygon, 3 tag keys, 2 values); self-crossing loops are never generated (validity unspecified in the vendored s2). Trusted: TLC, harness/obs, vh-world. `all` is compared modulo points without searchable tags (indexing of bare points is unspecified). Static worlds (basic, compact, merged, overlay) are covered by the C16/C17/C02 checks' search sections.",
+    "note": "Small scope (<= 13 features on a convex polygon, 3 tag keys, 2 values); self-crossing loops are never generated (validity unspecified in the vendored s2). Trusted: TLC, harness/obs, vh-world. `all` is compared modulo points without searchable tags (indexing of bare points is unspecified). Static worlds (basic, compact, compact merged from several files, layered) are included from the StaticWorld family.",
     "technique": "TLA+ spec (MutableWorld) model-checked by TLC; exported state graph replayed on the real worlds",
 }
 
 
 def run(ctx):
-    return mworld.run_family(
+    # every world under edits: BasicMutableWorld and three overlay constructions, after every transition
+    mworld.run_family(
         ctx, "C03", scenarios=[1, 2, 5], impls=['basicmutable', 'overlay-basic', 'overlay-mutable', 'overlay-empty'],
-        sections=['search'],
-        meta_rule='every transition of scenarios 1-2 executed via its shortest prefix on 4 world constructions + random walks; 12 queries per state',
-        assumptions=[])
+        sections=['search'], finish=False)
+    # static worlds: basic, compact, compact merged from several files (incl. files that restate the same points,
+    # so that a result comes from three merged iterators), and layered worlds (scenario 2)
+    sworld.run_static(
+        ctx, "C03", 2, variants=[{"impl": "layered-basic"}, {"impl": "layered-mixed", "max": (8, 100)}],
+        sections=["search"], rule="", max_cases=ctx.pick(300, None), finish=False)
+    return sworld.run_static(
+        ctx, "C03", 1,
+        variants=[{"impl": "basic", "cores": 2}, {"impl": "compact", "cores": 2, "max": (12, 200)},
+                  {"impl": "compact-split", "cores": 1, "split": 1, "max": (8, 100)},
+                  {"impl": "compact-split", "cores": 1, "split": 3, "max": (12, 150)}],
+        sections=["search"],
+        rule='every transition of MutableWorld scenarios 1, 2, 5 executed via its shortest prefix on 4 world constructions + '
+             'random walks; every StaticWorld source built as basic / compact / merged compact files / layered worlds; '
+             '12 query trees per state, result list compared with Sorted(Den) (order, no duplicates)',
+        assumptions=["`all` is compared modulo points without searchable tags"],
+        max_cases=ctx.pick(300, None))
